@@ -135,6 +135,12 @@ func (p *Part) IncExtra(k string, d int64) {
 func (p *Part) Inexhaustive(reason string) {
 	p.mu.Lock()
 	p.Exhaustive = false
+	for _, n := range p.Notes {
+		if n == "not exhaustive: "+reason {
+			p.mu.Unlock()
+			return
+		}
+	}
 	p.Notes = append(p.Notes, "not exhaustive: "+reason)
 	p.mu.Unlock()
 }
